@@ -104,21 +104,23 @@ def norm_tx(t):
     return t
 
 
-def parsed_value(m):
-    """the field values `stream_deserialize` yields for the frame of `m` — what the shadow of the destination
-    register of a `P` step must hold.  Beyond C01's normTx this is the gating of `msg_version.msg_deser`: a frame
-    below 106 / 209 / 70001 does not carry addrFrom, nNonce, strSubVer / the height / the relay flag, so the parsed
-    object has None / None / True there whatever the sender's object held; 10300 is read as 300; the addresses of a
-    version message travel without time (parsed nTime = 0)."""
+def parsed_value(m, pv=60002):
+    """the field values a CONFORMING `stream_deserialize(f, protover=pv)` yields for the frame of `m` — what the
+    shadow of the destination register of a `P` step must hold.  Beyond C01's normTx this is the gating of
+    `msg_version.msg_deser`: a frame below 106 / 209 / 70001 does not carry addrFrom, nNonce, strSubVer / the height
+    / the relay flag, so the parsed object has None / None / True there whatever the sender's object held; the
+    addresses of a version message travel without time (parsed nTime = 0); every parsed address belongs to the
+    protocol version `pv` the reader was told.  (Where the shipped code is known to differ — 10300 read as 300,
+    D24; parsed addresses always PROTO_VERSION, D25 — the dedicated histories stop right after the parse.)"""
     m = norm_msg(m)
+    if m[0] == 'addr':
+        return ('addr', [(pv,) + tuple(a[1:]) for a in m[1]])
     if m[0] != 'version':
         return m
     (_, ver, sv, t, to, fr, nonce, sub, height, relay) = m
-    if ver == 10300:
-        ver = 300
-    to = to[:1] + (0,) + to[2:]
+    to = (pv, 0) + tuple(to[2:])
     if ver >= 106:
-        fr = None if fr is None else fr[:1] + (0,) + fr[2:]
+        fr = None if fr is None else (pv, 0) + tuple(fr[2:])
     else:
         fr = nonce = sub = None
     if ver < 209:
@@ -271,10 +273,11 @@ class History:
         self.streams[sid][0].append((self.chain,) + copy.deepcopy(self.regs[reg]))
         self.steps.append('A %s %s' % (sid, reg))
 
-    def P(self, sid, reg):
-        """returns True when the call is expected to yield a message (then `reg` holds it)"""
+    def P(self, sid, reg, pv=None):
+        """returns True when the call is expected to yield a message (then `reg` holds it); `pv` = the `protover`
+        handed to stream_deserialize (default: the library's PROTO_VERSION)"""
         st = self.streams[sid]
-        self.steps.append('P %s %s' % (sid, reg))
+        self.steps.append('P %s %s' % (sid, reg) + ('' if pv is None else ' %d' % pv))
         if not st[2] or st[1] >= len(st[0]):
             return False
         ch, k, s = st[0][st[1]]
@@ -282,7 +285,7 @@ class History:
             st[2] = False            # 24 bytes consumed, stream out of step from here on
             return False
         st[1] += 1
-        self.regs[reg] = (k, to_shadow(parsed_value(from_shadow(k, copy.deepcopy(s)))))
+        self.regs[reg] = (k, to_shadow(parsed_value(from_shadow(k, copy.deepcopy(s)), 60002 if pv is None else pv)))
         return True
 
 
@@ -386,8 +389,46 @@ def other_of_same_length(rng, kind, m, T):
     return norm_msg(from_shadow(k, s))
 
 
-def histories(rng, T, kinds, big):
+def known_finding_histories(rng, T):
+    """D24 / D25 on live objects.  Nothing follows the divergent parse: from there on the live object differs from
+    the conforming value by exactly the known finding."""
+    a0 = T.gen_addr(rng, True)
+    for ch in (rng.choice(CHAINS),):
+        h = History()
+        h.C(ch)
+        m = T.shape_version(('version', 10300, T.pick(rng, T.U64E, 64), T.pick_int(rng, T.I64E, 64), a0,
+                             T.gen_addr(rng, True), T.pick(rng, T.U64E, 64), rng.randbytes(3), 5, 1))
+        h.N('a', m, rng.randrange(64))
+        h.F('a')
+        h.S('s', ['a'])
+        h.P('s', 'b')
+        yield 'hist:D24', h.steps
+    for pv in (31401, 0, 31402, 70015):
+        def old(a):
+            return (pv, 0 if pv < 31402 else a[1]) + tuple(a[2:])
+        h = History()
+        h.C(rng.choice(CHAINS))
+        h.N('a', ('addr', [old(T.gen_addr(rng)) for _ in range(rng.choice([1, 2, 3]))]), rng.randrange(64))
+        h.F('a')
+        h.S('s', ['a'])
+        h.P('s', 'b', pv)
+        yield 'hist:D25:addr', h.steps
+        h = History()
+        h.C(rng.choice(CHAINS))
+        m = list(T.gen_msg(rng, 'version'))
+        m[4], m[5] = old(m[4]), old(m[5])
+        h.N('a', tuple(m), rng.randrange(64))
+        h.F('a')
+        h.S('s', ['a'])
+        h.P('s', 'b', pv)
+        yield 'hist:D25:version', h.steps
+
+
+def histories(rng, T, kinds, big, known=False):
     """yield (tag, steps)"""
+    if known:
+        for x in known_finding_histories(rng, T):
+            yield x
     for kind in kinds:
         # (a) one object: frame, every kind of in-place edit each followed by a frame, parse back, edit the parsed
         #     object, frame; the original object is framed again afterwards (it must not have followed)
